@@ -46,6 +46,11 @@ fn anomaly_findings(obs: &Obs, utf8: bool) -> Vec<Finding> {
             f.push(fnd("C05", 0, format!("{a}: slice() and remainder() would form a slice with out-of-range bounds")));
         } else if a.contains("char boundaries") || (utf8 && (a.contains("slice()") || a.contains("remainder()"))) {
             f.push(fnd("C04", 0, a.clone()));
+            if a.contains("char boundaries") {
+                // the same observation under C05: slice() / remainder() on this span panic on the boundary check of the
+                // forbid_unsafe build and form an invalid str in the default build (not called by the harness)
+                f.push(fnd("C05", 0, format!("{a}: the forbid_unsafe build would panic on its boundary check in slice() / remainder(), the default build would hand out an invalid str")));
+            }
         } else {
             f.push(fnd("C14", 0, a.clone()));
         }
@@ -634,7 +639,7 @@ pub fn stress_inputs(sd: &SubjectDef, idx_in_family: usize, big: usize, quadrati
 fn families_for(prop: &str) -> &'static [&'static str] {
     match prop {
         "C13" => &["callbacks"],
-        "C20" => &["core", "stress", "stress-cb"],
+        "C20" => &["core", "callbacks", "stress", "stress-cb"],
         "C11" => &["sub"],
         "C01" | "C12" | "C06" | "C05" => &["core", "sub"],
         _ => &["core"],
